@@ -54,16 +54,22 @@ var voteMenu = [][]sig{
 	2: {{"A", 2}},           // A every 6 s
 	3: {{"A", 1}, {"B", 2}}, // A every 12 s, B every 6 s
 	4: {{"B", 1}},           // A leaves the list, B (12 s) enters
+	// ranking swap without a change of the number of feeds (used with max interval 24 s: power 2 ->
+	// 12 s, power 3 -> 8 s): the list is ordered by power, so 5 -> 6 reorders [B,A] into [A,B]
+	5: {{"A", 2}, {"B", 3}},
+	6: {{"A", 3}, {"B", 2}},
 }
 
 // Cfg is one configuration (one search).
 type Cfg struct {
 	Name     string  `json:"name"`
-	Vals     []int   `json:"validators"`    // validators the alphabet acts on
-	PreAct   []int   `json:"pre_activated"` // activated in the base state (at its block time)
-	InitVote int     `json:"initial_vote"`  // index into voteMenu, current at the base state
-	Votes    []int   `json:"votes"`         // vote events offered
-	Phase    int     `json:"phase"`         // extra 3-second blocks after the base update block (height 4)
+	Vals     []int   `json:"validators"`             // validators the alphabet acts on
+	PreAct   []int   `json:"pre_activated"`          // activated in the base state (at its block time)
+	PrePrice []int   `json:"pre_priced,omitempty"`   // of those: submitted a price for every current feed in the base state
+	MaxIv    int64   `json:"max_interval,omitempty"` // feeds MaxInterval; 0 = 12 s
+	InitVote int     `json:"initial_vote"`           // index into voteMenu, current at the base state
+	Votes    []int   `json:"votes"`                  // vote events offered
+	Phase    int     `json:"phase"`                  // extra 3-second blocks after the base update block (height 4)
 	Exp      uint64  `json:"expiration_blocks"`
 	MaxReq   int     `json:"max_requests"`
 	MaxVote  int     `json:"max_votes"`
@@ -165,13 +171,20 @@ func (m *model) Key() string {
 
 // feedsFromVote: README "Feed Interval": a signal is a current feed when its total power reaches
 // PowerStepThreshold; interval = max(MinInterval, floor(MaxInterval / floor(power/step))).
-func feedsFromVote(vote int) []feed {
+func (s *spec) maxIv() int64 {
+	if s.cfg.MaxIv > 0 {
+		return s.cfg.MaxIv
+	}
+	return maxInterval
+}
+
+func (s *spec) feedsFromVote(vote int) []feed {
 	var out []feed
 	for _, x := range voteMenu[vote] {
 		if x.P < powerStep {
 			continue
 		}
-		iv := maxInterval / (x.P / powerStep)
+		iv := s.maxIv() / (x.P / powerStep)
 		if iv < minInterval {
 			iv = minInterval
 		}
@@ -228,7 +241,7 @@ func (s *spec) Build(w *engine.World) (sdk.Context, engine.Model) {
 	fp := w.App.FeedsKeeper.GetParams(ctx)
 	fp.GracePeriod = grace
 	fp.MinInterval = minInterval
-	fp.MaxInterval = maxInterval
+	fp.MaxInterval = s.maxIv()
 	fp.PowerStepThreshold = powerStep
 	fp.CurrentFeedsUpdateInterval = updateEvery
 	fp.CooldownTime = cooldown
@@ -263,7 +276,7 @@ func (s *spec) Build(w *engine.World) (sdk.Context, engine.Model) {
 	for i := 0; i < 3+s.cfg.Phase; i++ {
 		h, now := ctx.BlockHeight(), ctx.BlockTime().Unix()
 		if h%updateEvery == 0 {
-			m.Feeds, m.LastUpdT, m.LastUpdH = feedsFromVote(m.Vote), now, h
+			m.Feeds, m.LastUpdT, m.LastUpdH = s.feedsFromVote(m.Vote), now, h
 		}
 		next, br := w.Block(ctx, 1, 3*time.Second)
 		if br.Halt != "" {
@@ -276,6 +289,16 @@ func (s *spec) Build(w *engine.World) (sdk.Context, engine.Model) {
 			panic("activate: " + r.Err.Error())
 		}
 		m.V[i].Active, m.V[i].Since = true, ctx.BlockTime().Unix()
+	}
+	for _, i := range s.cfg.PrePrice {
+		var sps []feedstypes.SignalPrice
+		for _, f := range m.Feeds {
+			sps = append(sps, feedstypes.NewSignalPrice(feedstypes.SIGNAL_PRICE_STATUS_AVAILABLE, f.ID, 1000))
+			m.V[i].Prices[f.ID] = pRec{T: ctx.BlockTime().Unix(), H: ctx.BlockHeight()}
+		}
+		if r := w.Tx(ctx, 0, feedstypes.NewMsgSubmitSignalPrices(bandtesting.Validators[i].ValAddress.String(), ctx.BlockTime().Unix(), sps)); !r.OK() {
+			panic("base prices: " + r.Err.Error())
+		}
 	}
 	if d := s.compare(w, ctx, m); d != "" {
 		panic("base state differs from model: " + d)
@@ -548,7 +571,7 @@ func (s *spec) block(w *engine.World, ctx sdk.Context, m *model, ev string, dt i
 				}
 			}
 		}
-		nf := feedsFromVote(m.Vote)
+		nf := s.feedsFromVote(m.Vote)
 		keep := map[string]bool{}
 		for _, f := range nf {
 			keep[f.ID] = true
@@ -747,6 +770,10 @@ func configs(quick bool) []Cfg {
 			{Name: "oracle-exp1", Vals: []int{0, 1}, InitVote: 0, Phase: 0, Exp: 1, MaxReq: 2, Dts: []int64{0, 3, 10}, Depth: 7},
 			{Name: "oracle-exp2", Vals: []int{0, 1}, PreAct: []int{0}, InitVote: 0, Phase: 1, Exp: 2, MaxReq: 2, Dts: []int64{0, 1, 10}, Depth: 7},
 			// both clocks
+			// two feeds whose power ranking is swapped by the vote (same number of feeds, different order
+			// in the list), prices for both already submitted, then partial submissions
+			{Name: "feeds-reorder", Vals: []int{0}, PreAct: []int{0}, PrePrice: []int{0}, InitVote: 5, Votes: []int{6}, Phase: 3, Exp: 2, MaxIv: 24,
+				MaxVote: 1, MaxPrice: 2, PriceOne: true, Dts: []int64{0, 1, 6}, Depth: 6},
 			{Name: "both", Vals: []int{0, 1}, PreAct: []int{1}, InitVote: 3, Votes: []int{4}, Phase: 1, Exp: 2, MaxReq: 1, MaxVote: 1, MaxPrice: 2, PriceOne: true, Dts: []int64{1, 6, 12}, Depth: 6},
 		}
 	}
@@ -771,6 +798,10 @@ func configs(quick bool) []Cfg {
 		Cfg{Name: "feeds-deep-v3-p1-preact", Vals: []int{0}, PreAct: []int{0}, InitVote: 3, Votes: []int{0, 4}, Phase: 1, Exp: 2, MaxVote: 1, MaxPrice: 2, PriceOne: true, Dts: []int64{0, 1, 6, 10}, Depth: 9},
 		Cfg{Name: "feeds-deep-v1-p3", Vals: []int{0}, InitVote: 1, Votes: []int{3}, Phase: 3, Exp: 2, MaxVote: 1, MaxPrice: 2, Dts: []int64{0, 3, 10, 12}, Depth: 9},
 	)
+	for _, ph := range []int{1, 3} {
+		out = append(out, Cfg{Name: fmt.Sprintf("feeds-reorder-p%d", ph), Vals: []int{0}, PreAct: []int{0}, PrePrice: []int{0}, InitVote: 5, Votes: []int{6, 4}, Phase: ph, Exp: 2, MaxIv: 24,
+			MaxVote: 2, MaxPrice: 3, PriceOne: true, Dts: []int64{0, 1, 3, 6, 12}, Depth: 8})
+	}
 	for _, exp := range []uint64{1, 2, 3} {
 		out = append(out, Cfg{Name: fmt.Sprintf("oracle-exp%d", exp), Vals: []int{0, 1}, InitVote: 0, Phase: 0, Exp: exp, MaxReq: 3, Dts: []int64{0, 1, 3, 10}, Depth: 8})
 		out = append(out, Cfg{Name: fmt.Sprintf("oracle-exp%d-preact", exp), Vals: []int{0, 1}, PreAct: []int{0, 1}, InitVote: 0, Phase: 1, Exp: exp, MaxReq: 3, Dts: []int64{0, 1, 3, 10}, Depth: 8})
@@ -788,7 +819,7 @@ func init() {
 	engine.Register(&engine.Check{
 		ID: "C15",
 		Run: func(r *engine.Run) {
-			r.Bound = "3 bonded validators (1-2 acted on); events Activate(v), RequestData(ask = all active, min 1), ReportData(id,v), SubmitSignalPrices(v, all | first current feed), Vote from a 5-entry menu (feed list {}, {A/12s}, {A/6s}, {A/12s,B/6s}, {B/12s}) taking effect at the next update block, Block(dh=1, dt in {0,1,3,6,10,12} s); grace 6 s, intervals 6/12 s, penalty 10 s, feed update every 4 blocks, expiration 1-3 blocks; base states 0-3 blocks after an update, validators fresh or pre-activated; depth 6-7 (quick) / 8-9 (thorough)"
+			r.Bound = "3 bonded validators (1-2 acted on); events Activate(v), RequestData(ask = all active, min 1), ReportData(id,v), SubmitSignalPrices(v, all | first current feed), Vote from a 5-entry menu (feed list {}, {A/12s}, {A/6s}, {A/12s,B/6s}, {B/12s}; plus a configuration with max interval 24 s whose vote swaps the power ranking of two feeds [B/8s,A/12s] -> [A/8s,B/12s] after prices for both were submitted) taking effect at the next update block, Block(dh=1, dt in {0,1,3,6,10,12} s); grace 6 s, intervals 6/12 s, penalty 10 s, feed update every 4 blocks, expiration 1-3 blocks; base states 0-3 blocks after an update, validators fresh or pre-activated; depth 6-7 (quick) / 8-9 (thorough)"
 			r.Assumptions = []string{
 				"committee of a request (RequestedValidators) and acceptance of reports / price submissions are taken as given (C09, C01, C06); the reference records a report or a price iff the transaction succeeded",
 				"the statement is one-directional: only 'deactivated => genuine miss', 'activate accepted => inactive and penalty elapsed', 'active => activated by message' and 'status changes only by MsgActivate or in a block end' are asserted; a genuine miss that does not deactivate, or a permitted MsgActivate that is refused, is only recorded (labels genuine-miss-not-deactivated:*, act:rejected-although-permitted:*)",
